@@ -26,9 +26,10 @@ class C15(Prop):
                   "scores_perm, prefCount_perm, plurality_regroup, regroup), and it is proved outright for the verdicts "
                   "of the recognisers whose models are exact: is_single_peaked (C15x.elo_relabel / elo_perm), both "
                   "single-crossing functions (sc_*, scConflict_*), is_single_peaked_on_tree (sptree_*) and the PQ-tree "
-                  "isC1P under row and column permutations (isC1P_rows_perm / isC1P_columns_perm). For the optimisers "
-                  "and the 1-Euclidean recogniser (C12, C18, C19) invariance is tested metamorphically here, at sizes "
-                  "far beyond brute force, not proved")
+                  "isC1P under row and column permutations (isC1P_rows_perm / isC1P_columns_perm), and for the number "
+                  "of alternatives k_alternative_deletion deletes (C15y: it equals the specification's minimum). For the "
+                  "ILP optimisers (CBC), the partition functions and the 1-Euclidean recogniser (C12 ILP, C18, C19) "
+                  "invariance is tested metamorphically here, at sizes far beyond brute force, not proved")
     level_note = ("metamorphic differential testing on the real code; the Lean side contributes the permutation- and "
                   "regrouping-invariance theorems of the specifications; D17 (1-Euclidean depends on storage order) is "
                   "a known finding")
@@ -68,6 +69,9 @@ class C15(Prop):
         "PrefVerif.C15x.sptree_perm",
         "PrefVerif.C15x.isC1P_rows_perm",
         "PrefVerif.C15x.isC1P_columns_perm",
+        "PrefVerif.C15y.deletion_value_eq_min",
+        "PrefVerif.C15y.deletion_value_relabel",
+        "PrefVerif.C15y.deletion_value_perm",
     ]
     rule = ("ordinal profiles (planted single-peaked / single-crossing / tree / Euclidean and random; m up to 40, n up "
             "to 300 for the polynomial recognisers, m <= 6 for ILP and partition optimisers) and approval profiles (up "
